@@ -426,7 +426,15 @@ def execute(trace, ctx=None):
                     for kk, v in zip(keys, inp['vals']):
                         if kk not in uniq:
                             uniq.append(kk); vals.append(v)
-                    call[nm] = table(keycols, uniq, inp['col'] if inp['col'] not in on else nm, vals)
+                    cname = inp['col'] if inp['col'] not in on else nm
+                    call[nm] = table(keycols, uniq, cname, vals)
+                    if cname == nm and (k + len(uniq)) % 4 == 0:
+                        # a wider table: besides the keys and the column of the parameter's own name (which is the one to use)
+                        # it carries other columns, one of them called `data` like the output of an earlier calculation
+                        for extra in ('data', 'zzz'):
+                            if extra not in on and extra != nm:
+                                call[nm][extra] = [-7777 - j for j in range(len(uniq))]
+                        res.probe('input-table-with-extra-columns')
                     minputs[nm] = ('table', keycols, {tuple(kk): v for kk, v in zip(uniq, vals)})
             if not call:
                 continue
